@@ -298,7 +298,8 @@ def run(ctx, eng):
                'id is the smallest one never used')
     cm.include(ctx, eng, 'C22',
                lambda o: o.rule in ('ORD.gates', 'ORD.gate') and
-               o.where.endswith('_receive_push_promise_frame'),
+               o.where.endswith(('_receive_push_promise_frame',
+                                 'push_stream')),
                'a promised id is checked like any new stream id: the promise '
                'handler creates it through _begin_new_stream, never re-uses '
                'an existing stream')
